@@ -88,6 +88,25 @@ func Generate(r *lp.Rng, o Opts) *Design {
 	if o.Index%5 == 3 {
 		g.sharedTemplate() // a second verb on the path template of an existing method
 	}
+	if o.Index%7 == 5 {
+		// ONE endpoint with two routes on the same path template and different verbs
+		m0 := g.d.Services[len(g.d.Services)-1].Methods[0]
+		alt := map[string]string{"GET": "DELETE", "DELETE": "GET", "POST": "PUT", "PUT": "PATCH", "PATCH": "PUT"}[m0.HTTP.Verb]
+		free := true
+		for _, s := range g.d.Services {
+			for _, m := range s.Methods {
+				if m != m0 && m.HTTP != nil && s.Path+m.HTTP.Path == g.d.Services[len(g.d.Services)-1].Path+m0.HTTP.Path && m.HTTP.Verb == alt {
+					free = false
+				}
+			}
+		}
+		if alt != "" && free && !g.routes[alt+" "+m0.HTTP.Path] {
+			m0.HTTP.MoreRoutes = append(m0.HTTP.MoreRoutes, []string{alt, m0.HTTP.Path})
+		}
+	}
+	if o.Security && len(g.d.Schemes) > 0 {
+		g.securityShapes()
+	}
 	return g.d
 }
 
@@ -454,6 +473,111 @@ func (g *gen) sharedTemplate() {
 		alt.Payload = payload
 	}
 	s.Methods = append(s.Methods, alt)
+}
+
+// securityShapes adds, chosen by the index, two requirement shapes the random choices rarely produce:
+// the same scheme required at API level (without scopes) and at service level (with a scope) with a
+// method that declares nothing; and a requirement that lists Basic first and a header scheme second.
+func (g *gen) securityShapes() {
+	var scoped, basic, hdr *Scheme
+	for _, sc := range g.d.Schemes {
+		if len(sc.Scopes) > 0 && scoped == nil {
+			scoped = sc
+		}
+		if sc.Kind == "basic" {
+			basic = sc
+		}
+		if sc.Kind == "jwt" || sc.Kind == "apikey" {
+			hdr = sc
+		}
+	}
+	s := g.d.Services[0]
+	ensure := func(kind string) *Scheme {
+		sc := &Scheme{Name: kind + "_sch", Kind: kind}
+		if kind == "jwt" || kind == "oauth2" {
+			sc.Scopes = []string{"api:read", "api:write"}
+		}
+		g.d.Schemes = append(g.d.Schemes, sc)
+		return sc
+	}
+	switch g.o.Index % 6 {
+	case 4:
+		if scoped == nil {
+			scoped = ensure("jwt")
+		}
+		if scoped != nil {
+			g.d.Security = []Req{{Schemes: []string{scoped.Name}}}
+			s.Security = []Req{{Schemes: []string{scoped.Name}, Scopes: []string{scoped.Scopes[1]}}}
+			s.NoSecurity = false
+			m := g.plainMethod(s, "inherit")
+			g.credentials(m, s.Security)
+		}
+	case 5:
+		if basic == nil {
+			basic = ensure("basic")
+		}
+		if hdr == nil {
+			hdr = ensure("jwt")
+		}
+		if basic != nil && hdr != nil {
+			m := g.plainMethod(s, "basic_first")
+			m.Security = []Req{{Schemes: []string{basic.Name, hdr.Name}}}
+			g.credentials(m, m.Security)
+			// the second credential travels in a header of its own
+			for attr, kind := range m.Creds {
+				if kind == "jwt" || strings.HasPrefix(kind, "apikey:") {
+					m.HTTP.Headers = append(m.HTTP.Headers, Mapped{Attr: attr, Wire: "X-Authorization"})
+				}
+			}
+		}
+	}
+}
+
+// plainMethod adds a GET method without payload attributes of its own.
+func (g *gen) plainMethod(s *Service, name string) *Method {
+	m := &Method{Name: name, HTTP: &HTTPMap{Verb: "GET", Path: "/" + name}}
+	s.Methods = append(s.Methods, m)
+	return m
+}
+
+// credentials gives the method the (required) credential attributes of the schemes of reqs.
+func (g *gen) credentials(m *Method, reqs []Req) {
+	if m.Payload == nil {
+		m.Payload = &Att{Type: &Type{IsObject: true}}
+	}
+	if m.Creds == nil {
+		m.Creds = map[string]string{}
+	}
+	have := map[string]bool{}
+	add := func(attr, cred string) {
+		m.Creds[attr] = cred
+		m.Payload.Type.Object = append(m.Payload.Type.Object, &Field{Name: attr, Att: &Att{Type: &Type{Prim: "String"}}})
+		m.Payload.Required = append(m.Payload.Required, attr)
+	}
+	for _, rq := range reqs {
+		for _, sn := range rq.Schemes {
+			if have[sn] {
+				continue
+			}
+			have[sn] = true
+			for _, sc := range g.d.Schemes {
+				if sc.Name != sn {
+					continue
+				}
+				switch sc.Kind {
+				case "basic":
+					add("user", "username")
+					add("pass", "password")
+				case "apikey":
+					add("key", "apikey:"+sn)
+				case "jwt":
+					add("token", "jwt")
+				case "oauth2":
+					add("access", "oauth2")
+				}
+			}
+		}
+	}
 }
 
 func (g *gen) requirement() Req {
